@@ -121,6 +121,11 @@ def proof_obligations(prop_id):
             info['failed'].append(f'{n}: {axs}')
     return info
 
+def leanchecker(prop_id):
+    """independent re-check of the compiled property module (thorough tier)"""
+    rc, out = sh(['lake', 'env', 'leanchecker', f'AY.Props.{prop_id}'], cwd=LEAN, timeout=1800)
+    return rc == 0, out[-500:]
+
 def setup():
     t0 = time.time()
     gen_tables()
@@ -157,7 +162,7 @@ class Prop:
     ID = None
     RULE = ''
     QUICK_N = 300
-    THOROUGH_N = 5000
+    THOROUGH_N = 15000
     def corpus(self): return []
     def gen_cases(self, rng, n, tier): raise NotImplementedError
     def impl(self, case): raise NotImplementedError          # observable of the implementation
@@ -249,6 +254,12 @@ def run_check(prop, tier, seed, replay=None):
     except InfraError as e:
         print(f'INFRA {pid}: {e}', file=sys.stderr)
         return 2
+    if tier == 'thorough' and obl['build_ok'] and obl['obligations']:
+        ok, out = leanchecker(pid)
+        obl['leanchecker'] = 'ok' if ok else out
+        if not ok:
+            obl['failed'].append('leanchecker rejected the compiled module: ' + out[-200:])
+            obl['discharged'] = 0
     rng = random.Random(f'{pid}-{seed}')
     n = prop.THOROUGH_N if tier == 'thorough' else prop.QUICK_N
     if replay:
@@ -364,6 +375,7 @@ def run_check(prop, tier, seed, replay=None):
             'checker_cmd': f'cd lean && lake build AY.Props.{pid} && lake env lean .lake/audit/Audit{pid}.lean   # #print axioms per theorem',
             'trusted_base': TRUSTED_BASE,
             'theorems': obl['theorems'],
+            'leanchecker': obl.get('leanchecker', 'not run in the quick tier'),
             'evaluations': len(results), 'distinct_nontrivial': len(nontriv),
             'rule': prop.RULE,
             'samples': samples,
